@@ -508,10 +508,16 @@ theorem finish_ink (b : WB) (ls : List TLine) (h : b.finish = .ok ls) : ls.flatM
     rw [← e1, ← e2]
     -- after the final flushes nothing is left on the line or in the word
     have hw : ink b1.flushLine.word = [] := by rw [flushLine_word]; exact flushWord_word b b1 .normal hf
-    have hl : ink b1.flushLine.line = [] := by
-      unfold WB.flushLine; split
-      · rename_i hn; exact ink_noContent _ hn
+    have hl : ink b1.flushLine.line = [] := ink_noContent _ (flushLine_line_noContent b1)
+    have hr : (rescueMarks b1.flushLine.text b1.flushLine.line).flatMap ink = b1.flushLine.text.flatMap ink := by
+      unfold rescueMarks
+      split
+      · rename_i last hlast
+        have ht : b1.flushLine.text = b1.flushLine.text.dropLast ++ [last] := (dropLast_append_of_getLast? _ last hlast).symm
+        conv => rhs; rw [ht]
+        simp [ink_append, hl]
       · rfl
+    rw [hr]
     simp [WB.ink, hw, hl]
 
 end H2T
